@@ -34,6 +34,8 @@ def run(tier, work):
         out = work.sub("out_keys_" + go.replace(".", ""))
         rc, o = vlib.run_test_bin(binp, "^TestVerif_C18Keys$", env={"VERIF_OUT": out, "VERIF_SEED": vlib.seed()}, timeout=600)
         if rc != 0:
+            if vlib.code_panic(o):
+                raise vlib.CodePanic(vlib.code_panic(o), o)
             raise vlib.MachineryError("key driver (%s) failed rc=%s:\n%s" % (go, rc, (o or "")[-2000:]))
         tf = os.path.join(out, "keys.ndjson")
         res = storelib.validate(work, tf, "keys_" + go.replace(".", ""), module="KeyTrace", cfg="KeyTrace.cfg")
